@@ -131,8 +131,8 @@ func generateTemplate(description string) (string, []byte, error) {
 	}
 
 	pkgname := strings.ToLower(strings.Replace(strings.Replace(midl.Name, ".", "", -1), "-", "", -1))
-	// A Go keyword cannot name a package
-	if token.IsKeyword(pkgname) {
+	// A Go keyword cannot name a package, and a package main cannot be imported
+	if token.IsKeyword(pkgname) || pkgname == "main" {
 		pkgname += "_"
 	}
 
